@@ -262,6 +262,14 @@ def installed(tracer, storage_level=True, os_level=True, parquet_native=True):
                     super().__init__(where, *a, **kw)
                     tracer.fire("after", "do", "ParquetWriter.open", tracer.rel(where), None)
 
+                def write_table(self, *a, **kw):
+                    # rows streaming into the file (write_batch goes through here too): an I/O error can surface here as well (disk
+                    # full, EIO on the flush of a row group)
+                    tracer.fire("before", "do", "ParquetWriter.write", tracer.rel(self._vf_where), None)
+                    r = super().write_table(*a, **kw)
+                    tracer.fire("after", "do", "ParquetWriter.write", tracer.rel(self._vf_where), None)
+                    return r
+
                 def close(self):
                     if getattr(self, "is_open", False):
                         tracer.fire("before", "do", "ParquetWriter.close", tracer.rel(self._vf_where), None)
